@@ -198,6 +198,8 @@ def rule_individual(ctx):
     loops = [x for x in ast.walk(fn) if isinstance(x, ast.For) and isinstance(x.iter, ast.Name) and x.iter.id == art]
     if not (len(uses) == 1 and len(loops) == 1):
       continue   # joint (batch) check: judged by R-C17-BYVALUE and C02/C03
+    if not any(i_["node"] is loops[0] for i_ in b.result_loops()):
+      continue   # the loop over the artifacts only builds a partition (a spelled-out comprehension); the results are recorded per partition: joint check
     n_ind += 1
     where = b.where()
     wv = c16.weak_var(b)
